@@ -350,6 +350,33 @@ def _shard_cmd(prop_id, part, tier, seed, shard, nshards, out):
             '--_shard', '%s:%d:%d' % (part, shard, nshards), '--_out', out, '--_seed', str(seed)]
 
 
+def run_regressions(mod, known):
+    """Seconds-long replay tier: saved minimal cases of earlier findings (fixed defects, seeded changes).
+
+    Returns ({(part, clause): path}, n_run, errors); the saved file itself is the replay.
+    """
+    import glob
+    seen, errors, n = {}, [], 0
+    for path in sorted(glob.glob(os.path.join(VERIF, 'regress', '%s-*.json' % mod.ID))):
+        with open(path) as fh:
+            data = json.load(fh)
+        part = next((p for p in mod.PARTS if p.name == data['part']), None)
+        if part is None:
+            errors.append('regression file %s names unknown part %s' % (path, data['part']))
+            continue
+        st = _ShardState()
+        rec = Recorder(part.name)
+        n += 1
+        try:
+            res = _run_one(part, data['case'], rec, known, st, False)
+        except Exception:
+            errors.append('regression %s: %s' % (path, st.fatal or traceback.format_exc()))
+            continue
+        if res is not None:
+            seen.setdefault((part.name, res[0]), path)
+    return seen, n, errors
+
+
 def run_property(mod, tier, seed, only_parts=None, max_procs=16):
     os.makedirs(WORK, exist_ok=True)
     t0 = time.time()
@@ -390,8 +417,15 @@ def run_property(mod, tier, seed, only_parts=None, max_procs=16):
                     results.append(json.load(fh))
                 os.remove(out)
         running = still
+    reg_seen, reg_n, reg_err = ({}, 0, []) if only_parts else run_regressions(mod, known)
+    errors.extend(reg_err)
     wall = time.time() - t0
-    return aggregate(mod, tier, seed, results, errors, known, wall)
+    evidence, seen, errors, known = aggregate(mod, tier, seed, results, errors, known, wall)
+    evidence['coverage']['regression_replays'] = reg_n
+    for key, path in reg_seen.items():
+        seen.setdefault(key, path)
+    evidence['violations'] = len(seen)
+    return evidence, seen, errors, known
 
 
 def aggregate(mod, tier, seed, results, errors, known, wall):
